@@ -150,3 +150,5 @@ func isFlagSet(name string) bool {
 }
 
 func monHash(s string) string { return mon.Hash(s) }
+
+func monRoot() string { return mon.Root() }
